@@ -7,6 +7,7 @@ association list key ↦ element id; the list is a Lean list, front first.
 The spec (`SCache`) is the capacity-bounded recency list the property talks about.
 Core Lean only.
 -/
+import Gossamer.Base.Bytes
 namespace Gossamer.C35
 
 /-- `DefaultLRUCapacity` -/
@@ -137,6 +138,75 @@ def srun (s : SCache) : List Op → List Nat × SCache
 
 /-- abstraction function: the recency list of (key, value) pairs -/
 def abs (c : Cache) : SCache := { cap := c.capacity, items := c.lruList.map (fun e => (e.key, e.val)) }
+
+/-! ### pkg/trie/cache/inmemory/trie_cache.go: the wrapper keyed by byte slices
+
+`TrieInMemoryCache` converts every `[]byte` key with `string(key)` — a COPY, strings are
+immutable — and hands it to an `LRUCache[string, []byte]` (nodes) and to a ccache byte-budget
+cache (values).  So the caches are keyed by the key's bytes at call time; what the caller does to
+its buffer afterwards cannot matter.  Byte strings are embedded into the `Nat` keys/values of the
+LRU model by `encBytes` (injective, never 0, so 0 stays the zero value `nil`).
+The value cache is modelled as a plain map: the harness stays far below its 2 MB budget, where
+ccache evicts nothing (its eviction is asynchronous and not modelled). -/
+
+/-- `defaultNodeCacheMaxElements` -/
+def defaultNodeCacheMaxElements : Nat := 10000
+
+/-- injective embedding of byte strings into positive naturals -/
+def encBytes (b : Bytes) : Nat := natOfBE (1 :: b)
+
+/-- inverse of `encBytes` on its range (0 and other non-codes give `none` = Go `nil`) -/
+def decBytes (n : Nat) : Option Bytes :=
+  match (leMin n).reverse with
+  | 1 :: b => some b
+  | _ => none
+
+structure TrieCache where
+  node : Cache
+  value : List (Nat × Nat)
+
+/-- a TrieInMemoryCache whose node cache has the given capacity (`NewTrieInMemoryCache` uses
+    `defaultNodeCacheMaxElements`) -/
+def tnew (capacity : Nat) : TrieCache := { node := new capacity, value := [] }
+
+inductive TOp where
+  | setn (k v : Bytes) | getn (k : Bytes) | setv (k v : Bytes) | getv (k : Bytes)
+deriving DecidableEq, Repr
+
+/-- one wrapper call; the result is the returned slice encoded by `encBytes`, 0 for `nil` -/
+def tstep (t : TrieCache) : TOp → Nat × TrieCache
+  | .setn k v => (0, { t with node := put t.node (encBytes k) (encBytes v) })
+  | .getn k => let r := get t.node (encBytes k); (r.1, { t with node := r.2 })
+  | .setv k v => (0, { t with value := mapSet t.value (encBytes k) (encBytes v) })
+  | .getv k => ((t.value.lookup (encBytes k)).getD 0, t)
+
+def trun (t : TrieCache) : List TOp → List Nat × TrieCache
+  | [] => ([], t)
+  | op :: ops =>
+    let r := tstep t op
+    let rs := trun r.2 ops
+    (r.1 :: rs.1, rs.2)
+
+/-- spec of the wrapper: a capacity-bounded recency list and a map, both keyed by the BYTES the
+    caller passed -/
+structure TSpec where
+  node : SCache
+  value : List (Nat × Nat)
+
+def tsnew (capacity : Nat) : TSpec := { node := snew capacity, value := [] }
+
+def tsstep (t : TSpec) : TOp → Nat × TSpec
+  | .setn k v => (0, { t with node := sput t.node (encBytes k) (encBytes v) })
+  | .getn k => let r := sget t.node (encBytes k); (r.1, { t with node := r.2 })
+  | .setv k v => (0, { t with value := mapSet t.value (encBytes k) (encBytes v) })
+  | .getv k => ((t.value.lookup (encBytes k)).getD 0, t)
+
+def tsrun (t : TSpec) : List TOp → List Nat × TSpec
+  | [] => ([], t)
+  | op :: ops =>
+    let r := tsstep t op
+    let rs := tsrun r.2 ops
+    (r.1 :: rs.1, rs.2)
 
 /-! ### Lock table of the Go methods (regenerated from the source by the harness and compared) -/
 
